@@ -2,6 +2,7 @@
 
 Decides: at-most-once guards of continuations, then() runs-or-remembers, no fulfilment from a rejection, combinator
 guards (sibling cross-check of All / Any / WhenAllRange) and all-of completeness.  Value identity is not decided."""
+import re
 from .. import cfg, lib
 from ..facts import AnalysisBroken, strip_tmpl
 
@@ -150,23 +151,29 @@ def run(ck):
             ck.ob("C11-R1", "caller-of:" + what, okc, e.loc, f, "called from %s" % f.base)
             if not okc:
                 continue
-            dom = cfg.dominators(f)
+            # (in the flattened function: the guard may sit in a small helper such as `bool isFirstCall(size_t& count)`)
+            ff = prog.flat(f) if not f.is_lambda else f
+            e_ff = [x for x in ff.events("call") if x.get("callee") == e.get("callee") and x.get("l") == e.get("l") and x.get("c") == e.get("c")]
+            if ff is not f and e_ff:
+                f, e = ff, e_ff[0]
             # the call is reached only on an edge that knows the counter is still zero: `>= 1` / `> 0` / `!= 0` not taken, or `< 1` /
-            # `== 0` / `<= 0` taken
-            g_ok = False
-            for b in f.blocks.values():
-                t_ = b.term
-                if not t_ or len(b.succs) != 2 or not _field(t_.get("lhs"), "Continuable::" + cnt) or not isinstance(t_.get("rconst"), int) or isinstance(t_.get("rconst"), bool):
-                    continue
-                for k_ in (0, 1):
-                    r_ = lib.rel_on_edge(t_, k_)
-                    if r_ is None or b.succs[k_] is None:
-                        continue
-                    zero = (r_[1] == "<" and t_["rconst"] == 1) or (r_[1] == "==" and t_["rconst"] == 0) or (r_[1] == "<=" and t_["rconst"] == 0)
-                    if zero and cfg.edge_dominates(f, b.id, k_, e):
-                        g_ok = True
+            # `== 0` / `<= 0` taken -- the comparison in the branch itself or recorded in a bool local
+            is_cnt = lambda r_: _field(r_, "Continuable::" + cnt)
+            num = lambda n_: (lambda r_: re.sub(r"[\s()uUlL]", "", r_.get("t") or "") == str(n_))
+            zero_edges = lib.relation_edges(f, is_cnt, num(1), ("<",)) + lib.relation_edges(f, is_cnt, num(0), ("==", "<="))
+            g_ok = any(cfg.edge_dominates(f, bid_, k_, e) for bid_, k_ in zero_edges)
             incs = [x for x in f.events("incdec") if _field(x.get("operand"), "Continuable::" + cnt) and x.get("op") == "++"]
-            i_ok = len(incs) == 1 and cfg.ev_dominates(dom, incs[0], e)
+            # every path that reaches the call has incremented the counter (paths follow the value of bool locals, see cfg.flag_vars)
+            uncounted = []
+
+            def st1(st, ev):
+                if any(ev is x for x in incs):
+                    return 1
+                if ev is e and st == 0:
+                    uncounted.append(ev)
+                return st
+            cfg.run_automaton(f, 0, st1)
+            i_ok = len(incs) == 1 and not uncounted
             ck.ob("C11-R1", "once-guard:Continuable::" + outer, g_ok and i_ok, e.loc, f,
                   "bail-out on %s dominates: %s; increment dominates: %s" % (cnt, g_ok, i_ok))
 
